@@ -115,7 +115,6 @@ pub fn default_guards() -> Vec<String> {
     [
         "update_inside_open_or_overlapping_txn", // D5, D28, D25
         "update_of_uniquely_constrained_column", // D7, D24
-        "drop_of_table_with_pending_drop",       // D27 (pending half), in the catalog
         "table_name_reuse_while_session_open",   // U2, in the catalog's name index
         "concurrent_writers_same_row",           // D8
         "concurrent_inserts_same_key",           // D10
@@ -521,6 +520,9 @@ impl Gen {
                 continue;
             }
             match exp {
+                // a DELETE that meets the pending (or later committed) delete of another transaction is
+                // refused with a write-write conflict; the loser rolls back (D8 / D27, repaired for deletes)
+                Expect::Fail("write conflict") if !self.p.has("concurrent_deleters_same_row") => return Some(stmt),
                 Expect::Fail(_) | Expect::Any => continue,
                 _ => {}
             }
@@ -804,8 +806,17 @@ impl Gen {
             }
             Event::Exec(k, s) => {
                 let tx = self.sess[k];
-                if !matches!(self.model.run(tx, s, false), Expect::Fail(_)) {
+                let e = self.model.run(tx, s, false);
+                if !matches!(e, Expect::Fail(_)) {
                     self.model.run(tx, s, true);
+                } else if e == Expect::Fail("write conflict") {
+                    // the loser of a write-write conflict rolls back at once (the executor does it)
+                    self.sess.remove(k);
+                    if let Some(ts) = self.sess_deleted.remove(k) {
+                        self.delete_rolled_back.extend(ts);
+                    }
+                    self.must_commit.remove(k);
+                    self.model.abort(tx);
                 } else {
                     self.poison_rejected_inserts(tx, std::slice::from_ref(s));
                 }
